@@ -1068,3 +1068,26 @@ def hit_sibling(ctx):
     ctx.check(bool(loads) and all(set(g.nodes_of(c)) & g.reach(true_succ) for c in loads), loads[0] if loads else t[0], "a valid hit loads the stored result")
     rets = [x for x in nodes_of_type(f, ast.Return) if isinstance(x.value, ast.Tuple) and dotted(x.value.elts[0]) == "output"]
     ctx.check(bool(rets), rets[0] if rets else f, "and returns it")
+
+
+def cache_forward(ctx):
+    """Memory.cache hands every option over to the MemorizedFunc it builds."""
+    f = M(ctx, "Memory.cache")
+    cs = [c for c in calls_in(f) if call_name(c) == "cls" and len(c.keywords) >= 5]
+    ctx.need(cs, "MemorizedFunc construction not found in Memory.cache")
+    c = cs[0]
+    want = {"location": "self.store_backend", "backend": "self.backend", "ignore": "ignore", "mmap_mode": "mmap_mode", "compress": "self.compress",
+            "verbose": "verbose", "timestamp": "self.timestamp", "cache_validation_callback": "cache_validation_callback"}
+    for k, v in want.items():
+        got = kwarg(c, k)
+        ctx.check(got is not None and unparse(got) == v, c, "Memory.cache passes %s=%s" % (k, v), "Memory.cache passes %s=%s (expected %s): the option given by the user is lost" % (k, unparse(got) if got is not None else None, v),
+                  key=MEM + "::Memory.cache::forwarding of " + k)
+    ctx.check(c.args and dotted(c.args[0]) == "func", c, "the function itself is wrapped")
+    part = [x for x in calls_in(f) if call_name(x) == "functools.partial"]
+    for x in part:
+        for k in ("ignore", "mmap_mode", "verbose", "cache_validation_callback"):
+            ctx.check(dotted(kwarg(x, k)) == k, x, "decorator form (func=None) keeps %s" % k, "decorator form drops %s" % k)
+    init = M(ctx, "MemorizedFunc.__init__")
+    for attr, src in (("self.cache_validation_callback", "cache_validation_callback"), ("self.mmap_mode", "mmap_mode"), ("self.compress", "compress")):
+        st = assigns_to(init, attr)
+        ctx.check(bool(st) and dotted(st[0].value) == src, st[0] if st else init, "MemorizedFunc stores %s" % src)
